@@ -338,6 +338,7 @@ func (c *oCache) TryRemove(id string) (ok bool, err error) {
 		// An entry found in the map with a finished load always has its value
 		// set, because a failed load deletes the entry under c.mu before the
 		// load channel is closed.
+		verifGateE("tryremove.loading", e)
 		c.mu.Unlock()
 		return false, nil
 	}
@@ -383,6 +384,7 @@ func (c *oCache) Add(id string, value Object) (err error) {
 	c.mu.Lock()
 	defer c.mu.Unlock()
 	if c.closed {
+		verifGate("add.closed", id)
 		return ErrClosed
 	}
 	if _, ok := c.data[id]; ok {
